@@ -277,6 +277,20 @@ pub fn drive_deadband(s: &mut Session, rng: &mut Rng, runs: usize) {
     }
 }
 
+/// range end points (C17): glide times >= 0 of any finite magnitude, both ends of the rate range
+pub fn drive_extreme(s: &mut Session, rng: &mut Rng, runs: usize) {
+    let ts: [f32; 12] = [0.0, -0.0, 1e-45, f32::MIN_POSITIVE, 1e-10, 1e-3, 0.05, 10.0, 10.000001, 1e10, f32::MAX, 9.99];
+    for r in 0..runs {
+        let fs = if r % 2 == 0 { 100 } else { 48000 };
+        s.start(fs);
+        for _ in 0..12 {
+            s.set_time(*rng.pick(&ts));
+            let x = *rng.pick(&[0.0f32, 8.0, -8.0, 1.0, -0.5]);
+            s.hold(x, 20 + rng.below(200), 30);
+        }
+    }
+}
+
 pub fn rerun(lines: &[serde_json::Value], out: &mut Out) {
     let mut s = Session::new(out);
     for e in lines {
@@ -299,6 +313,7 @@ pub fn record(driver: &str, seed: u64, thorough: bool, out: &mut Out) -> Stats {
         "steps" => drive_steps(&mut s, &mut rng, if thorough { 1500 } else { 60 }),
         "sched" => drive_sched(&mut s, &mut rng, if thorough { 3000 } else { 300 }),
         "deadband" => drive_deadband(&mut s, &mut rng, if thorough { 400 } else { 40 }),
+        "extreme" => drive_extreme(&mut s, &mut rng, if thorough { 200 } else { 30 }),
         _ => {
             eprintln!("unknown glide driver {}", driver);
             std::process::exit(2)
